@@ -208,7 +208,9 @@ Definition try_lock (s : st) (t : nat) (fail : pc) (ok : st -> st) : option (st 
   | None => Some (ok (set_lock s (Some t)), EvLock true)
   end.
 
-Definition flag_bad (s : st) (b : bool) : st := if b then set_bad s true else s.
+Definition is_some {A} (o : option A) : bool := match o with Some _ => true | None => false end.
+Definition opt_or {A} (o : option A) (d : A) : A := match o with Some a => a | None => d end.
+Definition flag_bad (s : st) (b : bool) : st := set_bad s (bad s || b).
 
 (* registering a frame: fresh `state` = WAITING *)
 Definition new_frame (s : st) (t : nat) (c : option val) : st :=
@@ -285,7 +287,7 @@ Definition sstep (s : st) (t : nat) (c : choice) : option (st * ev) :=
       | [] => None
       | r :: rest =>
           let s1 := flag_bad (set_rq s rest)
-                             (negb (live (pcs s r)) || match cell s r with Some _ => true | None => false end) in
+                             (negb (live (pcs s r)) || is_some (cell s r)) in
           let s2 := set_handed (set_wstate (set_cell s1 r (Some (cur s t))) r D) (handed s ++ [(cur s t, r)]) in
           ret s2 t (SUnl k (SUWoke r)) (EvStore (svar s r) o_done_st (wnum D))
       end
@@ -350,9 +352,9 @@ Definition rstep (cul : bool) (s : st) (t : nat) (c : choice) : option (st * ev)
       match sq s with
       | [] => None
       | p :: rest =>
-          let v := match cell s p with Some v => v | None => cur s p end in
+          let v := opt_or (cell s p) (cur s p) in
           let s1 := flag_bad (set_sq s rest)
-                             (negb (live (pcs s p)) || match cell s p with Some _ => false | None => true end) in
+                             (negb (live (pcs s p)) || negb (is_some (cell s p))) in
           let s2 := set_handed (set_wstate (set_cell s1 p None) p D) (handed s ++ [(v, t)]) in
           ret s2 t (RUnl k (RUWoke p v)) (EvStore (svar s p) o_done_st (wnum D))
       end
@@ -406,14 +408,14 @@ Definition rstep (cul : bool) (s : st) (t : nat) (c : choice) : option (st * ev)
       | D =>
           match cell s t with
           | Some v => Some (r_done s1 t (RVal v), e)
-          | None => Some (r_done (set_bad s1 true) t RDisc, e)   (* expect("DONE implies ...") panics *)
+          | None => Some (r_done (flag_bad s1 true) t RDisc, e)   (* expect("DONE implies ...") panics *)
           end
       | C =>
           match k with
           | KRt => Some (r_done s1 t (RTimeout (cell s t)), e)
-          | _ => Some (r_done (flag_bad s1 (match cell s t with Some _ => true | None => false end)) t RDisc, e)
+          | _ => Some (r_done (flag_bad s1 (is_some (cell s t))) t RDisc, e)
           end
-      | _ => Some (r_done (flag_bad s1 (match cell s t with Some _ => true | None => false end)) t RDisc, e)
+      | _ => Some (r_done (flag_bad s1 (is_some (cell s t))) t RDisc, e)
       end
   | DLock | DDisc _ | DUnl _ | DUnpark _ => dstep false s t
   | _ => None
